@@ -68,8 +68,8 @@ func BuildTarget(rpc *spec.RPC, req proto.Message, queryAll bool) (string, error
 			}
 			continue
 		}
-		if !m.Has(fd) && !queryAll {
-			continue
+		if !m.Has(fd) && (!queryAll || fd.HasPresence()) {
+			continue // an absent optional field has no URL form: spelling its default would set it
 		}
 		q.Set(qp.Name, ScalarString(fd, m.Get(fd)))
 	}
